@@ -262,6 +262,8 @@ def _args(ctx, fn_name: str, label: str, d: str, role: str, ln: Link):
                 problems.append(f'{which} list is filtered ({r.src.filters!r}): some formals are dropped')
             if r.sep.const() is None or r.sep.const().strip() != ',':
                 problems.append(f'{which} list is joined with {r.sep!r}')
+            if r.src.order:
+                problems.append(f'{which} list is taken in {r.src.order} order: parameters and arguments no longer correspond by position')
         # argument element: exactly the formal's name
         ae = a.elem.parts
         if not (len(ae) == 1 and isinstance(ae[0], Hole) and ae[0].sym.root == a.src.var.root and ae[0].sym.path == ('name',)):
